@@ -1,6 +1,7 @@
 import Feox.Proto.Disk
 import Feox.Props.C06
 import Feox.Props.C05Acc
+import Feox.Fmt.RepCheck
 /-!
 # C05 — each data block has exactly one owner or is free; freed space is reusable
 
@@ -49,5 +50,25 @@ block size times the number of free blocks (`C06.reachable_inv` + `stats_total`)
 theorem no_leak {s : Fsm.State} (cs : List Fsm.Call) (hi : Fsm.Inv s) (hw : ∀ c ∈ cs, C06.IsWork c) :
     Fsm.getTotalFree (Fsm.run s cs) = Fsm.sumSizes (Fsm.run s cs).runs * Fsm.BS :=
   C06.stats_total (C06.reachable_inv cs hi hw)
+
+/-! ### the partition on the device bytes (`Fmt.RepCheck`) -/
+
+/-- **What a `true` answer of the run-time decision `Fmt.repTiledB` means.**  The correspondence
+runs evaluate `repTiledB` on the device file as the real store leaves it (after an acknowledged
+flush and a clean close; after every successful recovery with its repairs) with the index the
+store itself reports.  If it answers `true`, the labelling of the data area induced by that index
+is a tiling — every block belongs to exactly one indexed extent or is free-looking, and a marker's
+span holds free-looking blocks only (`partition` applies) — with exactly one record per index
+entry, and the byte-level recovery scan of the file accepts exactly those records. -/
+theorem device_partitioned_by_index {img : Feox.Fmt.Image} {v lo total : Nat} {lives : List Feox.Fmt.Live}
+    {o : Feox.Fmt.Opts} {journal : List (Nat × Nat)}
+    (hro : o.readOnly = false) (h : Feox.Fmt.repTiledB img v lo total lives = true) :
+    ∃ L, TiledBy (Feox.Fmt.labelOf img v lives) total L lo ∧ L.length = lives.length ∧
+      (∀ b, lo ≤ b → b < total →
+        (FLs (Feox.Fmt.labelOf img v lives) b ∧ ∀ r ∈ L, ¬ (r.1 ≤ b ∧ b < r.1 + r.2.2)) ∨
+        (∃ r ∈ L, r.1 ≤ b ∧ b < r.1 + r.2.2 ∧ ∀ r' ∈ L, (r'.1 ≤ b ∧ b < r'.1 + r'.2.2) → r' = r)) ∧
+      ∀ st, Feox.Fmt.GoodOutcome (Feox.Fmt.infoOf lives) L st (Feox.Fmt.scan img v total o journal lo st) := by
+  obtain ⟨L, ht, hlen, hscan⟩ := Feox.Fmt.repTiled_sound (o := o) (journal := journal) hro h
+  exact ⟨L, ht, hlen, ht.partition, hscan⟩
 
 end Feox.C05
